@@ -182,6 +182,16 @@ CHECKS['C11'] = dict(
     note='Trusted: g++ 12 at -O0 -frounding-math -ffp-contract=off, glibc sqrt/fma/nearbyint correctly rounded, the interpreter as reference (checked by C04). Exit 2 if g++ is missing. '
          'disagreements_checked counts mismatches re-examined under the RTN exact-zero open choice.')
 
+CHECKS['C13'] = dict(
+    category='exploration', design_ref='DESIGN.md §3 C13, §2.7',
+    technique='generated typed programs executed under a tracing interpreter; every reported static fact is checked against every observation (one soundness relation per analysis)',
+    text='Typed programs (incl. list[list[Real]], every alias route: binding, indexing, slicing, construction, tuple packing, iteration, comprehension variables; loop-header and '
+         'branch merges; value-class-relevant arithmetic; constants across redefinitions) run under a tracing subclass of the bytecode interpreter keyed by AST node identity: '
+         'observed values have the shape of the inferred type; concrete sizes equal len and equal size variables mean equal lengths; classify(value) is in the reported value class; '
+         'an expression reported constant always equals it; the run-time last writer of a read is among the reaching definitions; names bound to the same list object are may-aliases. '
+         'One array-size defect (row replaced through an alias) is an open known finding.',
+    note='Trusted: vlib/trace.py + vlib/c13_trace.py hooks (values snapshotted at observation), vlib/c13_oracle.py. Callees run untraced but every function is also checked as an entry point. Analysis crashes on accepted programs are counted in their own class.')
+
 NOT_YET = {}
 
 
